@@ -70,7 +70,11 @@ def gen_plan(rng):
                       "precedence", "master", "master", "reject", "wait",
                       "twprgesec"))
     cls = "PLSSDesc" if rng.random() < 0.6 else "Tract"
+    none_extra = rng.choice(("parse_qq", "clean_qq", "wait_to_parse",
+                             "segment", "ocr_scrub", "break_halves",
+                             "suppress_lot_divs", "sec_within", None))
     draw = {"machine": NAME, "family": fam, "cls": cls, "sigma": {},
+            "none_extra": none_extra,
             "old": {}, "mc": None, "mc2": None, "text": None,
             "trs": "154n97w14", "tw": None, "bogus": None,
             "sep": rng.choice((",", ", ", ";", " , "))}
@@ -92,7 +96,7 @@ def gen_plan(rng):
                 {"default_ns": rng.choice(("s", "S")),
                  "default_ew": rng.choice(("e", "E")), "ocr_scrub": True},
             ))
-        if "qq_depth" in sigma:
+        if "qq_depth" in sigma and rng.random() < 0.5:
             sigma.pop("qq_depth_min", None)
             sigma.pop("qq_depth_max", None)
         if sigma.get("sec_colon_required") is True:
@@ -188,6 +192,19 @@ def txt(sigma, sep=","):
     return sep.join(opgen.setting_to_text(k, v) for k, v in sigma.items())
 
 
+def txt_eq(sigma, sep=","):
+    """The documented alternative spelling 'attribute=value'."""
+    parts = []
+    for k, v in sigma.items():
+        if k in ("default_ns", "default_ew"):
+            parts.append(f"{k}={v}")
+        elif k == "layout":
+            parts.append(f"layout={v}")
+        else:
+            parts.append(f"{k}={v}")
+    return sep.join(parts)
+
+
 def _ordered(d):
     """Canonical (generator-independent) order of a setting assignment."""
     order = {n: i for i, n in enumerate(opgen.ALL_SETTINGS)}
@@ -199,6 +216,13 @@ def build(draw):
     sigma, old = _ordered(draw["sigma"]), _ordered(draw["old"])
     text, sep = draw["text"], draw["sep"]
     H, pairs = {}, []
+    # qq_depth given together with qq_depth_min/max is only well-defined when
+    # all of them come from the SAME source (documented: a min/max *keyword*
+    # displaces a configured qq_depth), so such draws skip the families that
+    # spread one assignment over a config string and keywords.
+    depth_mix = "qq_depth" in sigma and (
+        "qq_depth_min" in sigma or "qq_depth_max" in sigma)
+    none_extra = draw.get("none_extra")
 
     def desc(config=None, **kw):
         return {"op": "create", "cls": "PLSSDesc", "text": text,
@@ -221,6 +245,12 @@ def build(draw):
         s_text = txt(sigma, sep)
         H["Z"] = [desc(None, **base)]
         H["A"] = [desc(s_text, **base)]
+        H["A="] = [desc(txt_eq(sigma, sep), **base)]
+        pairs.append(("A", "A=", "final"))
+        if none_extra and none_extra not in sigma:
+            H["A0"] = [desc(s_text + sep + none_extra + ".None", **base)]
+            H["A0="] = [desc(none_extra + "=None" + sep + s_text, **base)]
+            pairs += [("A", "A0", "final"), ("A", "A0=", "final")]
         H["B"] = [desc(None, wait_to_parse=True, **base), setc(s_text), parse()]
         pairs.append(("A", "B", "final"))
         if len(sigma) >= 2:
@@ -241,7 +271,7 @@ def build(draw):
             pairs.append(("A", "C", "final"))
             pairs.append(("A", "C2", "final"))
             pairs.append(("A", "C-", "ret_vs_tracts"))
-        if len(sigma) >= 2:
+        if len(sigma) >= 2 and not depth_mix:
             ks = list(sigma)
             for tag, cut in (("X", 1), ("X'", len(ks) - 1)):
                 sa = {k: sigma[k] for k in ks[:cut]}
@@ -278,6 +308,12 @@ def build(draw):
         H["Z"] = [tract(None, parse_qq=True)]
         H["A"] = [tract(s_text, parse_qq=True)]
         H["A2"] = [tract(s_text + sep + "parse_qq")]
+        H["A="] = [tract(txt_eq(sigma, sep), parse_qq=True)]
+        pairs.append(("A", "A=", "final"))
+        if none_extra and none_extra not in sigma:
+            H["A0"] = [tract(s_text + sep + none_extra + ".None",
+                             parse_qq=True)]
+            pairs.append(("A", "A0", "final"))
         H["B"] = [tract(None), setc(s_text), parse()]
         H["C"] = [tract(None), parse(**sigma)]
         H["C2"] = [tract(None, parse_qq=True), parse(**sigma)]
@@ -290,12 +326,14 @@ def build(draw):
             s1 = {k: sigma[k] for k in ks[:1]}
             s2 = {k: sigma[k] for k in ks[1:]}
             H["B2"] = [tract(txt(s1, sep)), setc(txt(s2, sep)), parse()]
-            H["X"] = [tract(txt(s1, sep)), parse(**s2)]
-            H["Xr"] = [tract(txt(s2, sep)), parse(**s1)]
-            H["X-"] = [tract(txt(s1, sep), parse_qq=True),
-                       parse(commit=False, **s2)]
-            pairs += [("A", "B2", "final"), ("A", "X", "final"),
-                      ("A", "Xr", "final"), ("A", "X-", "ret_vs_lots_qqs")]
+            pairs.append(("A", "B2", "final"))
+            if not depth_mix:
+                H["X"] = [tract(txt(s1, sep)), parse(**s2)]
+                H["Xr"] = [tract(txt(s2, sep)), parse(**s1)]
+                H["X-"] = [tract(txt(s1, sep), parse_qq=True),
+                           parse(commit=False, **s2)]
+                pairs += [("A", "X", "final"), ("A", "Xr", "final"),
+                          ("A", "X-", "ret_vs_lots_qqs")]
     elif fam == "precedence" and cls == "PLSSDesc":
         base = {}
         if any(n in TRACT_LEVEL for n in sigma) and "parse_qq" not in sigma:
@@ -436,6 +474,15 @@ def build(draw):
                 pairs.append(("A", "Pf", "trs"))
         if len(sigma) >= 2:
             ks = list(sigma)
+            for tag, cfg_part, kw_part in (
+                    ("Xf", {k: sigma[k] for k in ks[:1]},
+                     {k: sigma[k] for k in ks[1:]}),
+                    ("Xfr", {k: sigma[k] for k in ks[1:]},
+                     {k: sigma[k] for k in ks[:1]})):
+                if kw_part and "ocr_scrub" not in kw_part:
+                    H[tag] = [dict(ft, config=txt(cfg_part, sep),
+                                   kw=dict(kw_part))]
+                    pairs.append(("A", tag, "trs"))
             sa = {k: sigma[k] for k in ks[:1]}
             sb = {k: sigma[k] for k in ks[1:]}
             H["X"] = [tract(txt(sa, sep)),
@@ -633,6 +680,20 @@ def run_history(ops):
             break
         outcomes.append(out)
     final = enc(subj) if subj is not None else None
+    # What the subordinate Tracts inherited (default_ns / default_ew /
+    # ocr_scrub only act later, in set_twprgesec): observe it.
+    if isinstance(final, dict) and isinstance(subj, pytrs.PLSSDesc):
+        obs = []
+        try:
+            for t in list(subj.tracts)[:3]:
+                t2 = pytrs.Tract("", config=t.config)
+                for a in ("default_ns", "default_ew", "ocr_scrub"):
+                    setattr(t2, a, getattr(t, a, None))
+                obs.append([t2.set_twprgesec(1, 2, 3),
+                            t2.set_twprgesec("l5", "I0", "2")])
+        except Exception as e:  # noqa
+            obs.append({"raised": type(e).__name__})
+        final["__obs_inherited"] = obs
     return {"outcomes": outcomes, "final": final, "roundtrip": roundtrip,
             "unavailable": unavailable}
 
